@@ -24,6 +24,7 @@ func runRender(in io.Reader, out io.Writer) {
 			json.Unmarshal(sc.Bytes(), &c)
 			prof := ProfileSpec{Name: fmt.Sprintf("min_%d", c.Id), Atoms: c.Atoms, Paths: c.Paths, Validations: c.Validations}
 			c.Profile = prof.Render()
+			c.Tree = treeOf(c.Profile)
 			c.Data = c.Graph.RenderFlat()
 			enc.Encode(c)
 		case "c02":
